@@ -23,14 +23,14 @@ def make_repo(repo, patch):
     p = subprocess.run(["patch", "-p1", "-s", "-i", patch], cwd=repo, capture_output=True, text=True)
     return None if p.returncode == 0 else "patch does not apply: " + (p.stdout + p.stderr)[-300:]
 
-seeds = sys.argv[1:] or sorted(os.path.basename(os.path.dirname(p)) for p in glob.glob(os.path.join(ROOT, "seeded", "*", "patch.diff")) + glob.glob(os.path.join(ROOT, "selftest", "*", "patch.diff")))
+seeds = sys.argv[1:] or sorted(os.path.basename(os.path.dirname(p)) for p in glob.glob(os.path.join(ROOT, "seeded", "*", "patch.diff")) + glob.glob(os.path.join(ROOT, "selftest", "*", "patch.diff")) + glob.glob(os.path.join(ROOT, "benign", "*", "patch.diff")))
 d = tempfile.mkdtemp(prefix="seedfacts-")
 try:
     repo = os.path.join(d, "repo")
     for s in seeds:
         out = os.path.join(check.CACHE, "seedfacts", s)
         shutil.rmtree(out, ignore_errors=True)
-        err = make_repo(repo, None if s == "base" else next(p_ for p_ in (os.path.join(ROOT, "seeded", s, "patch.diff"), os.path.join(ROOT, "selftest", s, "patch.diff")) if os.path.exists(p_)))
+        err = make_repo(repo, None if s == "base" else next(p_ for p_ in (os.path.join(ROOT, "seeded", s, "patch.diff"), os.path.join(ROOT, "selftest", s, "patch.diff"), os.path.join(ROOT, "benign", s, "patch.diff")) if os.path.exists(p_)))
         if err: print(s, err); continue
         with check.locked("extract"):
             ok, err = check.extract(repo, out, os.path.join(check.CACHE, "target-seed"))
